@@ -282,7 +282,7 @@ func c19Child(c *mon.Child) {
 			var o c19Outcome
 			o.panicked, o.pv, o.st = mon.Guard(func() { o.err = sc.build() })
 			o.ok = !o.panicked && o.err == nil
-			c19Judge(c, key, o, "static type: "+sc.desc, "", sc.mustBuild)
+			c19Judge(c, key, o, "static type: "+sc.desc, c19StaticMustReject[sc.desc], sc.mustBuild)
 			c.Nontrivial("static:" + sc.desc)
 			c.Feature("static_type_cases")
 			c.End(key)
